@@ -78,7 +78,8 @@ def _helper_read_frame(lit: LineIterator) -> tuple:
     # Read the first line, get the title and try to get the time.
     # Time field is optional.
     line = next(lit)
-    title = line.split(",")[0] if "t=" in line else line[:-1]
+    # The title is followed by an optional time, e.g. "title, t= 0.0" or "title t= 0.0 step= 1"
+    title = line.split("t=")[0].strip().rstrip(",").rstrip() if "t=" in line else line[:-1]
     time = 0.0
     if "t=" in line:
         # The time may be followed by other fields, e.g. "step= 100".
